@@ -27,9 +27,12 @@ func Run(r *ev.Run) {
 	gen.Dyn(maxK, fullK, func(u *gen.Universe) { us = append(us, u) })
 	nChain := len(us)
 	gen.DynTwoScope(func(u *gen.Universe) { us = append(us, u) })
+	nTwo := len(us) - nChain
+	gen.DynExtra(func(u *gen.Universe) { us = append(us, u) })
 	r.Rule(fmt.Sprintf("G-dyn: chains of 1..%d resources (all hop kinds up to length %d, 3 resp. 2 hop kinds beyond) (each with $dynamicAnchor n / $anchor n / none on a unique const marker) x every hop kind ($ref, fragment-less $dynamicRef, allOf[$ref], items->$ref, anyOf[false,$ref]) x every final $dynamicRef form (#n, rJ.json#n, pointer, off-chain x.json#n / y.json#n) x placement (embedded / loader / alternating); ", maxK, fullK) +
+		"extra families: a static $ref naming a dynamic anchor and two dynamic names (n, k, plus a decoy z) in scope over chains of 2-3 resources x 4 anchor kinds per resource x 7 final forms; the extensible-tree pattern with the anchor on the resource roots (3x3 anchor kinds, 3 final forms, 3 strict variants); a resource nested inside an embedded resource; loaded documents whose $id differs from the retrieval URI, is relative, or is absent; " +
 		"two-scope roots reaching one $dynamicRef through two resources in one call under 12 combinators x 54 anchor-kind assignments; each universe is validated on its marker instances and compared with R1's dynamic scope. " +
-		"Histories: on ONE Resolved, for every first call a tour of calls in which every ordered pair of the last 5 instances is adjacent (quick: every 4th universe; every 32nd universe: every sequence of 3 calls, each on its own Resolved), each verdict compared with the verdict of the same call on a fresh Resolved; states = distinct (universe, call-history) prefixes, transitions = Validate calls. Non-trivial = R1 evaluated an applicable keyword")
+		"Histories: on ONE Resolved, for every first call a tour of calls in which every ordered pair of 5 instances (up to 3 that R1 accepts, the rest rejected) is adjacent (quick: every 4th universe; every 32nd universe: every sequence of 3 calls, each on its own Resolved), each verdict compared with the verdict of the same call on a fresh Resolved; states = distinct (universe, call-history) prefixes, transitions = Validate calls. Non-trivial = R1 evaluated an applicable keyword")
 	r.Assume("R1's dynamic scope = list of schema resources entered; $dynamicRef is dynamic only when its initially resolved target carries $dynamicAnchor of the fragment's name (validated on dynamicRef.json and the rest of the suite at start-up)")
 	if n, bad, err := ref.CheckSuite("/repo"); err != nil || len(bad) > 0 {
 		fmt.Fprintf(os.Stderr, "HARNESS-ERROR R1 fails the official suite: %v %v\n", err, bad)
@@ -38,7 +41,8 @@ func Run(r *ev.Run) {
 		r.Set("oracle_suite_cases_passed", n)
 	}
 	r.Set("chain_universes", nChain)
-	r.Set("two_scope_universes", len(us)-nChain)
+	r.Set("two_scope_universes", nTwo)
+	r.Set("extra_universes", len(us)-nChain-nTwo)
 	var states, transitions, hist atomic.Int64
 	par.For(len(us), r.Expired, func(i int, j par.Journal) {
 		u := us[i]
@@ -56,7 +60,24 @@ func Run(r *ev.Run) {
 			depth = 3
 		}
 		if len(pool) > 5 {
-			pool = pool[len(pool)-5:]
+			// five instances with both verdicts among them where the universe has both
+			var valid, invalid []drive.Inst
+			if ru, err := ref.NewUniverseD(u.Root, u.Base, u.Docs, nil, ref.D2020); err == nil && ru.Closure() == nil {
+				for _, in := range pool {
+					if w := ru.Validate(in.Val); w.Err == nil && !w.Loop && !w.Undefined && w.Valid {
+						valid = append(valid, in)
+					} else {
+						invalid = append(invalid, in)
+					}
+				}
+			}
+			if len(valid) > 0 && len(invalid) > 0 {
+				sel := append([]drive.Inst(nil), valid[:min(3, len(valid))]...)
+				sel = append(sel, invalid[max(0, len(invalid)-(5-len(sel))):]...)
+				pool = sel
+			} else {
+				pool = pool[len(pool)-5:]
+			}
 		}
 		s, t := histories(r, j, u, pool, depth)
 		states.Add(int64(s))
